@@ -7,8 +7,11 @@ Dials are numbered `1..n` in input order.  `FuturesUnordered` is modelled by its
 (`inflight`) and its FIFO ready-to-run queue (`queue`: a future is enqueued when pushed and when
 its waker fires).  The environment decides outcomes (`complete i ok|err`, any time, also before the
 dial was started, also never).  One `poll` runs `ConcurrentDial::poll` until it returns.
-`SmartDial` is the same machine with every dial pushed at `new` (each wrapped in its `Delay`); the
-model is entered after all delays elapsed, i.e. with concurrency window `n`.
+`SmartDial` is the same machine with every dial pushed at `new` in rank order (window `n`), each
+wrapped in `async { if !delay.is_zero() { Delay::new(delay).await }; dial.fut.await }`: the wrapper's
+first poll arms a `Delay` (deadline = that poll's time + the ranked delay); the timer wakes the wrapper
+once the clock (`adv`) has reached the deadline; only then is the dial future polled (= started).
+`ConcurrentDial` is the instance with all delays 0.
 -/
 namespace C08
 
@@ -36,6 +39,22 @@ structure St where
   result : Option Res := none
   /-- maximum number of started-and-unfinished dials seen so far -/
   maxIn : Nat := 0
+  /-- `SmartDial` (completions of dials that were not started are not possible) -/
+  smart : Bool := false
+  /-- monotonic clock (ms) -/
+  now : Nat := 0
+  /-- ranked delay per dial (absent = 0) -/
+  delays : List (Nat × Nat) := []
+  /-- wrappers never polled so far -/
+  fresh : List Nat := []
+  /-- wrappers waiting on their `Delay`: (dial, deadline) -/
+  armed : List (Nat × Nat) := []
+  /-- wrappers whose `Delay` has fired but which were not polled since -/
+  released : List Nat := []
+  /-- ghost: (wrapper, time of its first poll), (dial, time it was started), time of the first `poll` -/
+  polledAt : List (Nat × Nat) := []
+  startedAt : List (Nat × Nat) := []
+  firstPoll : Option Nat := none
 
 def outcomeOf (s : St) (i : Nat) : Option Bool := (s.outcomes.find? (·.1 == i)).map (·.2)
 
@@ -45,20 +64,49 @@ def allDials (n : Nat) : List Nat := List.range' 1 n
 /-- `ConcurrentDial::new`: push the first `k` dials -/
 def new (n k : Nat) : St :=
   { k := k, n := n, pending := (allDials n).drop k, inflight := (allDials n).take k,
-    queue := (allDials n).take k }
+    queue := (allDials n).take k, fresh := allDials n }
+
+/-- `SmartDial::new`: every dial is pushed, in rank order, behind its delay -/
+def newSmart (order : List Nat) (delays : List (Nat × Nat)) : St :=
+  { k := max order.length 1, n := order.length, inflight := order, queue := order, fresh := order,
+    smart := true, delays := delays }
+
+def delayOf (s : St) (i : Nat) : Nat := ((s.delays.find? (·.1 == i)).map (·.2)).getD 0
 
 /-- started and not finished -/
 def live (s : St) : List Nat := s.inflight.filter (fun i => s.started.contains i)
 
 /-- environment: the transport dial `i` finishes (its waker, if registered, enqueues the task) -/
 def complete (s : St) (i : Nat) (ok : Bool) : St :=
-  if s.result.isSome || (outcomeOf s i).isSome || i == 0 || i > s.n then s else
+  if s.result.isSome || (outcomeOf s i).isSome || i == 0 || i > s.n
+      || (s.smart && !s.started.contains i) then s else
   let s1 := { s with outcomes := s.outcomes ++ [(i, ok)] }
   if s.started.contains i && s.inflight.contains i && !s.queue.contains i then
     { s1 with queue := s.queue ++ [i] }
   else s1
 
-/-- dequeue task `t` from the ready queue and poll its future (first poll = the dial is started) -/
+/-- the wrapper around dial `t` is polled: either the dial future is reached (`pass`: only the gate
+bookkeeping changes, the ready queue is still `t :: q`) or the wrapper stays `Pending` behind its
+`Delay` (`wait`: dequeued) -/
+inductive GateRes where
+  | pass (s : St)
+  | wait (s : St)
+
+def gate (s : St) (t : Nat) (q : List Nat) : GateRes :=
+  if s.fresh.contains t then
+    if delayOf s t == 0 then
+      .pass { s with fresh := s.fresh.erase t, polledAt := s.polledAt ++ [(t, s.now)],
+                     startedAt := if s.started.contains t then s.startedAt else s.startedAt ++ [(t, s.now)] }
+    else
+      .wait { s with queue := q, fresh := s.fresh.erase t, polledAt := s.polledAt ++ [(t, s.now)],
+                     armed := s.armed ++ [(t, s.now + delayOf s t)] }
+  else if s.released.contains t then
+    .pass { s with released := s.released.erase t,
+                   startedAt := if s.started.contains t then s.startedAt else s.startedAt ++ [(t, s.now)] }
+  else if s.started.contains t then .pass s
+  else .wait { s with queue := q }
+
+/-- dequeue task `t` from the ready queue and poll its dial future (first poll = the dial is started) -/
 def deq (s : St) (t : Nat) (q : List Nat) : St :=
   let s1 := { s with queue := q, started := if s.started.contains t then s.started else s.started ++ [t] }
   { s1 with maxIn := max s1.maxIn (live s1).length }
@@ -86,20 +134,46 @@ def pollLoop : Nat → St → St
     match s.queue with
     | [] => s                                                                    -- `Pending`
     | t :: q =>
-      match outcomeOf s t with
-      | none => pollLoop fuel (deq s t q)
-      | some true => succeed (deq s t q) t
-      | some false => pollLoop fuel (startNext (fail (deq s t q) t))
+      match gate s t q with
+      | .wait s' => pollLoop fuel s'
+      | .pass s' =>
+        match outcomeOf s' t with
+        | none => pollLoop fuel (deq s' t q)
+        | some true => succeed (deq s' t q) t
+        | some false => pollLoop fuel (startNext (fail (deq s' t q) t))
 
-def poll (s : St) : St := pollLoop (s.queue.length + s.pending.length + 2) s
+def poll (s : St) : St :=
+  let s0 := if s.firstPoll.isSome then s else { s with firstPoll := some s.now }
+  pollLoop (s0.queue.length + s0.pending.length + 2) s0
+
+/-- one timer whose deadline has passed wakes its wrapper -/
+def release (s : St) (a : Nat) : St :=
+  let s1 := { s with released := s.released ++ [a] }
+  if s.inflight.contains a && !s.queue.contains a then { s1 with queue := s.queue ++ [a] } else s1
+
+/-- the clock advances; futures-timer fires every `Delay` whose deadline has been reached -/
+def advance (s : St) (d : Nat) : St :=
+  if s.result.isSome then { s with now := s.now + d } else
+  let due := s.armed.filter (fun e => e.2 ≤ s.now + d)
+  (due.map (·.1)).foldl release
+    { s with now := s.now + d, armed := s.armed.filter (fun e => !(e.2 ≤ s.now + d)) }
 
 inductive Op where
   | complete (i : Nat) (ok : Bool)
   | poll
+  | adv (d : Nat)
 
 def step (s : St) : Op → St × Unit
   | .complete i ok => (complete s i ok, ())
   | .poll => (poll s, ())
+  | .adv d => (advance s d, ())
+
+/-- gate clause of the Spec: every start recorded at time `t` respects the dial's delay counted from
+the first poll -/
+def gateOk (delay : Nat → Nat) (firstPoll : Option Nat) (startedAt : List (Nat × Nat)) : Bool :=
+  startedAt.all fun e => match firstPoll with
+    | some t0 => decide (t0 + delay e.1 ≤ e.2)
+    | none => false
 
 /-! ## the property as an executable statement over one observation of the implementation -/
 /-- observation printed by the harness -/
